@@ -19,7 +19,7 @@ import (
 //   * the format of the settings key that is hashed into the fingerprint.
 // Fails closed when a shape is not recognised.
 
-func exprStr(e ast.Node) string {
+func rotExprStr(e ast.Node) string {
 	var b bytes.Buffer
 	printer.Fprint(&b, token.NewFileSet(), e)
 	return b.String()
@@ -29,7 +29,7 @@ var plainName = regexp.MustCompile(`^[A-Za-z0-9_]+$`)
 
 func isErrCheck(s ast.Stmt) bool {
 	is, ok := s.(*ast.IfStmt)
-	if !ok || is.Init != nil || is.Else != nil || exprStr(is.Cond) != "err != nil" || len(is.Body.List) == 0 {
+	if !ok || is.Init != nil || is.Else != nil || rotExprStr(is.Cond) != "err != nil" || len(is.Body.List) == 0 {
 		return false
 	}
 	r, ok := is.Body.List[len(is.Body.List)-1].(*ast.ReturnStmt)
@@ -47,7 +47,7 @@ func rotCallName(c *ast.CallExpr) string {
 	case *ast.Ident:
 		return f.Name
 	case *ast.SelectorExpr:
-		return exprStr(f)
+		return rotExprStr(f)
 	}
 	return ""
 }
@@ -64,7 +64,7 @@ func durSeconds(e ast.Expr) (int64, bool, error) {
 		v, err := strconv.ParseInt(x.Value, 0, 64)
 		return v, false, err
 	case *ast.SelectorExpr:
-		switch exprStr(x) {
+		switch rotExprStr(x) {
 		case "time.Second":
 			return 1, true, nil
 		case "time.Minute":
@@ -72,10 +72,10 @@ func durSeconds(e ast.Expr) (int64, bool, error) {
 		case "time.Hour":
 			return 3600, true, nil
 		}
-		return 0, false, fmt.Errorf("unknown duration unit %s", exprStr(x))
+		return 0, false, fmt.Errorf("unknown duration unit %s", rotExprStr(x))
 	case *ast.BinaryExpr:
 		if x.Op != token.MUL {
-			return 0, false, fmt.Errorf("unsupported operator in %s", exprStr(x))
+			return 0, false, fmt.Errorf("unsupported operator in %s", rotExprStr(x))
 		}
 		a, da, err := durSeconds(x.X)
 		if err != nil {
@@ -86,11 +86,11 @@ func durSeconds(e ast.Expr) (int64, bool, error) {
 			return 0, false, err
 		}
 		if da && db {
-			return 0, false, fmt.Errorf("duration * duration in %s", exprStr(x))
+			return 0, false, fmt.Errorf("duration * duration in %s", rotExprStr(x))
 		}
 		return a * b, da || db, nil
 	}
-	return 0, false, fmt.Errorf("unsupported duration expression %s", exprStr(e))
+	return 0, false, fmt.Errorf("unsupported duration expression %s", rotExprStr(e))
 }
 
 // shapeOf: the effectful skeleton of rotateTables / storagePolicyUpdate in source order.
@@ -113,7 +113,7 @@ func shapeOf(fd *ast.FuncDecl) ([]string, error) {
 		}
 		var as []string
 		for _, a := range c.Args[1:] {
-			as = append(as, exprStr(a))
+			as = append(as, rotExprStr(a))
 		}
 		return f, as, true
 	}
@@ -146,7 +146,7 @@ func shapeOf(fd *ast.FuncDecl) ([]string, error) {
 				fail("getSetting with %d arguments", len(c.Args))
 				return "", false
 			}
-			return "get(" + exprStr(c.Args[1]) + "," + exprStr(c.Args[2]) + "," + exprStr(c.Args[3]) + ")", true
+			return "get(" + rotExprStr(c.Args[1]) + "," + rotExprStr(c.Args[2]) + "," + rotExprStr(c.Args[3]) + ")", true
 		case "putSetting":
 			if len(c.Args) != 4 {
 				fail("putSetting with %d arguments", len(c.Args))
@@ -156,7 +156,7 @@ func shapeOf(fd *ast.FuncDecl) ([]string, error) {
 			if inReturn {
 				p = "return-put("
 			}
-			return p + exprStr(c.Args[1]) + "," + exprStr(c.Args[2]) + "," + exprStr(c.Args[3]) + ")", true
+			return p + rotExprStr(c.Args[1]) + "," + rotExprStr(c.Args[2]) + "," + rotExprStr(c.Args[3]) + ")", true
 		case "db.Exec":
 			if len(c.Args) < 2 {
 				fail("db.Exec without statement")
@@ -164,7 +164,7 @@ func shapeOf(fd *ast.FuncDecl) ([]string, error) {
 			}
 			var extra []string
 			for _, a := range c.Args[2:] {
-				extra = append(extra, exprStr(a))
+				extra = append(extra, rotExprStr(a))
 			}
 			if id, ok := c.Args[1].(*ast.Ident); ok && id.Name == "q" {
 				return classify(qFmt, qArgs, extra, loopVar), true
@@ -174,7 +174,7 @@ func shapeOf(fd *ast.FuncDecl) ([]string, error) {
 					return classify(f, as, extra, loopVar), true
 				}
 			}
-			return "exec:?" + exprStr(c.Args[1]), true
+			return "exec:?" + rotExprStr(c.Args[1]), true
 		case "db.Query", "db.QueryRow", "db.Select", "db.PrepareBatch", "db.AsyncInsert":
 			return "other:" + rotCallName(c), true
 		}
@@ -186,7 +186,7 @@ func shapeOf(fd *ast.FuncDecl) ([]string, error) {
 			case *ast.AssignStmt:
 				if len(s.Rhs) == 1 {
 					if c, ok := s.Rhs[0].(*ast.CallExpr); ok {
-						if len(s.Lhs) == 1 && exprStr(s.Lhs[0]) == "q" {
+						if len(s.Lhs) == 1 && rotExprStr(s.Lhs[0]) == "q" {
 							if f, as, ok := sprintf(c); ok {
 								qFmt, qArgs = f, as
 								continue
@@ -195,7 +195,7 @@ func shapeOf(fd *ast.FuncDecl) ([]string, error) {
 						if tok, ok := effect(c, false, loopVar); ok {
 							toks = append(toks, tok)
 							// the error of an effect must be looked at by the next statement
-							lhs := exprStr(s.Lhs[len(s.Lhs)-1])
+							lhs := rotExprStr(s.Lhs[len(s.Lhs)-1])
 							if lhs != "err" {
 								fail("result of %s is assigned to %s, not err", rotCallName(c), lhs)
 							}
@@ -203,8 +203,8 @@ func shapeOf(fd *ast.FuncDecl) ([]string, error) {
 								fail("%s is not followed by an error check", rotCallName(c))
 								continue
 							}
-							if is, ok := list[i+1].(*ast.IfStmt); ok && strings.HasPrefix(exprStr(is.Cond), "err != nil ||") && len(is.Body.List) == 1 && exprStr(is.Body.List[0]) == "return err" && is.Else == nil {
-								toks = append(toks, "return-if("+exprStr(is.Cond)+")")
+							if is, ok := list[i+1].(*ast.IfStmt); ok && strings.HasPrefix(rotExprStr(is.Cond), "err != nil ||") && len(is.Body.List) == 1 && rotExprStr(is.Body.List[0]) == "return err" && is.Else == nil {
+								toks = append(toks, "return-if("+rotExprStr(is.Cond)+")")
 								i++
 							} else if isErrCheck(list[i+1]) {
 								i++
@@ -219,8 +219,8 @@ func shapeOf(fd *ast.FuncDecl) ([]string, error) {
 					fail("range without value variable")
 					continue
 				}
-				toks = append(toks, "for("+exprStr(s.X)+")[")
-				walk(s.Body.List, exprStr(s.Value))
+				toks = append(toks, "for("+rotExprStr(s.X)+")[")
+				walk(s.Body.List, rotExprStr(s.Value))
 				toks = append(toks, "]")
 			case *ast.ReturnStmt:
 				if len(s.Results) == 1 {
@@ -248,7 +248,7 @@ func shapeOf(fd *ast.FuncDecl) ([]string, error) {
 					return true
 				})
 				if hidden {
-					fail("conditional effect: %s", exprStr(s.Cond))
+					fail("conditional effect: %s", rotExprStr(s.Cond))
 				}
 			case *ast.ForStmt, *ast.SwitchStmt, *ast.GoStmt, *ast.DeferStmt, *ast.BlockStmt:
 				hidden := false
@@ -339,18 +339,18 @@ func init() {
 				switch s := list[i].(type) {
 				case *ast.IfStmt:
 					if !isErrCheck(s) {
-						rotateNotes = append(rotateNotes, "unexpected if "+exprStr(s.Cond))
+						rotateNotes = append(rotateNotes, "unexpected if "+rotExprStr(s.Cond))
 					}
 				case *ast.ReturnStmt:
 				default:
-					return "", fmt.Errorf("Rotate: unexpected statement %s", exprStr(list[i]))
+					return "", fmt.Errorf("Rotate: unexpected statement %s", rotExprStr(list[i]))
 				}
 				continue
 			}
 			if len(as.Lhs) != 1 || len(as.Rhs) != 1 {
-				return "", fmt.Errorf("Rotate: unexpected assignment %s", exprStr(as))
+				return "", fmt.Errorf("Rotate: unexpected assignment %s", rotExprStr(as))
 			}
-			lhs := exprStr(as.Lhs[0])
+			lhs := rotExprStr(as.Lhs[0])
 			switch r := as.Rhs[0].(type) {
 			case *ast.FuncLit:
 				// func(column string) string { return fmt.Sprintf("%s + toIntervalDay(%d)", column, dropTTLDays) }
@@ -362,7 +362,7 @@ func init() {
 					return "", fmt.Errorf("Rotate: closure %s has an unexpected body", lhs)
 				}
 				c, ok := ret.Results[0].(*ast.CallExpr)
-				if !ok || rotCallName(c) != "fmt.Sprintf" || len(c.Args) != 3 || exprStr(c.Args[1]) != "column" || exprStr(c.Args[2]) != "dropTTLDays" {
+				if !ok || rotCallName(c) != "fmt.Sprintf" || len(c.Args) != 3 || rotExprStr(c.Args[1]) != "column" || rotExprStr(c.Args[2]) != "dropTTLDays" {
 					return "", fmt.Errorf("Rotate: closure %s is not Sprintf(format, column, dropTTLDays)", lhs)
 				}
 				fs, ok := strLit(c.Args[0])
@@ -377,7 +377,7 @@ func init() {
 						return "", fmt.Errorf("Rotate: result of %s assigned to %s", rotCallName(r), lhs)
 					}
 					if i+1 >= len(list) || !isErrCheck(list[i+1]) {
-						rotateNotes = append(rotateNotes, fmt.Sprintf("%s is not followed by `if err != nil { return err }`", exprStr(r)))
+						rotateNotes = append(rotateNotes, fmt.Sprintf("%s is not followed by `if err != nil { return err }`", rotExprStr(r)))
 						i--
 					}
 					var g grp
@@ -386,50 +386,50 @@ func init() {
 						for _, e := range es {
 							s, ok := strLit(e)
 							if !ok {
-								return nil, fmt.Errorf("Rotate: table argument %s is not a string literal", exprStr(e))
+								return nil, fmt.Errorf("Rotate: table argument %s is not a string literal", rotExprStr(e))
 							}
 							o = append(o, s)
 						}
 						return o, nil
 					}
 					if rotCallName(r) == "storagePolicyUpdate" {
-						if len(r.Args) < 6 || exprStr(r.Args[0]) != "db" || exprStr(r.Args[1]) != "clusterName" || exprStr(r.Args[2]) != "distributed" || exprStr(r.Args[3]) != "storagePolicy" {
-							return "", fmt.Errorf("Rotate: unexpected storagePolicyUpdate call %s", exprStr(r))
+						if len(r.Args) < 6 || rotExprStr(r.Args[0]) != "db" || rotExprStr(r.Args[1]) != "clusterName" || rotExprStr(r.Args[2]) != "distributed" || rotExprStr(r.Args[3]) != "storagePolicy" {
+							return "", fmt.Errorf("Rotate: unexpected storagePolicyUpdate call %s", rotExprStr(r))
 						}
 						s, ok := strLit(r.Args[4])
 						if !ok {
-							return "", fmt.Errorf("Rotate: setting name is not a literal in %s", exprStr(r))
+							return "", fmt.Errorf("Rotate: setting name is not a literal in %s", rotExprStr(r))
 						}
 						g.setting = s
 						if g.tables, err = lits(r.Args[5:]); err != nil {
 							return "", err
 						}
 					} else {
-						if len(r.Args) < 10 || exprStr(r.Args[0]) != "db" || exprStr(r.Args[1]) != "clusterName" || exprStr(r.Args[2]) != "distributed" || exprStr(r.Args[3]) != "days" || exprStr(r.Args[8]) != "logger" {
-							return "", fmt.Errorf("Rotate: unexpected rotateTables call %s", exprStr(r))
+						if len(r.Args) < 10 || rotExprStr(r.Args[0]) != "db" || rotExprStr(r.Args[1]) != "clusterName" || rotExprStr(r.Args[2]) != "distributed" || rotExprStr(r.Args[3]) != "days" || rotExprStr(r.Args[8]) != "logger" {
+							return "", fmt.Errorf("Rotate: unexpected rotateTables call %s", rotExprStr(r))
 						}
 						g.ttl = true
-						m, ok := durs[exprStr(r.Args[4])]
+						m, ok := durs[rotExprStr(r.Args[4])]
 						if !ok {
-							return "", fmt.Errorf("Rotate: minimum %s is not a known local duration", exprStr(r.Args[4]))
+							return "", fmt.Errorf("Rotate: minimum %s is not a known local duration", rotExprStr(r.Args[4]))
 						}
 						g.min = m
 						if g.timeExpr, ok = strLit(r.Args[5]); !ok {
-							return "", fmt.Errorf("Rotate: time expression is not a literal in %s", exprStr(r))
+							return "", fmt.Errorf("Rotate: time expression is not a literal in %s", rotExprStr(r))
 						}
 						dc, ok := r.Args[6].(*ast.CallExpr)
 						if !ok || len(dc.Args) != 1 {
-							return "", fmt.Errorf("Rotate: drop expression %s is not a call of a local closure", exprStr(r.Args[6]))
+							return "", fmt.Errorf("Rotate: drop expression %s is not a call of a local closure", rotExprStr(r.Args[6]))
 						}
 						df, ok := dropFmt[rotCallName(dc)]
 						if !ok || df != "%s + toIntervalDay(%d)" {
 							return "", fmt.Errorf("Rotate: drop expression closure %s has format %q", rotCallName(dc), df)
 						}
 						if g.dropCol, ok = strLit(dc.Args[0]); !ok {
-							return "", fmt.Errorf("Rotate: drop column is not a literal in %s", exprStr(dc))
+							return "", fmt.Errorf("Rotate: drop column is not a literal in %s", rotExprStr(dc))
 						}
 						if g.setting, ok = strLit(r.Args[7]); !ok {
-							return "", fmt.Errorf("Rotate: setting name is not a literal in %s", exprStr(r))
+							return "", fmt.Errorf("Rotate: setting name is not a literal in %s", rotExprStr(r))
 						}
 						if g.tables, err = lits(r.Args[9:]); err != nil {
 							return "", err
@@ -446,13 +446,13 @@ func init() {
 					groups = append(groups, g)
 					i++
 				default:
-					return "", fmt.Errorf("Rotate: unexpected call %s", exprStr(r))
+					return "", fmt.Errorf("Rotate: unexpected call %s", rotExprStr(r))
 				}
 			default:
 				// minTTL := time.Minute ; dayTTL := time.Hour * 24
 				v, isDur, err := durSeconds(as.Rhs[0])
 				if err != nil || !isDur {
-					return "", fmt.Errorf("Rotate: local %s = %s is not a constant duration (%v)", lhs, exprStr(as.Rhs[0]), err)
+					return "", fmt.Errorf("Rotate: local %s = %s is not a constant duration (%v)", lhs, rotExprStr(as.Rhs[0]), err)
 				}
 				durs[lhs] = v
 			}
@@ -473,7 +473,7 @@ func init() {
 		conv, clampCond, clampSet, tierFmt, diskStmt := "", "", "", "", ""
 		ast.Inspect(rt.Body, func(n ast.Node) bool {
 			rs, ok := n.(*ast.RangeStmt)
-			if !ok || exprStr(rs.X) != "days" {
+			if !ok || rotExprStr(rs.X) != "days" {
 				return true
 			}
 			for _, s := range rs.Body.List {
@@ -484,20 +484,20 @@ func init() {
 							if fs, ok := strLit(c.Args[0]); ok {
 								var as []string
 								for _, a := range c.Args[1:] {
-									as = append(as, exprStr(a))
+									as = append(as, rotExprStr(a))
 								}
 								tierFmt = fs + "|" + strings.Join(as, ",")
 							}
 						} else if conv == "" {
-							conv = exprStr(x.Lhs[0]) + " := " + exprStr(x.Rhs[0])
+							conv = rotExprStr(x.Lhs[0]) + " := " + rotExprStr(x.Rhs[0])
 						}
 					}
 				case *ast.IfStmt:
 					if len(x.Body.List) == 1 && x.Else == nil && x.Init == nil {
-						if strings.Contains(exprStr(x.Cond), "<") {
-							clampCond, clampSet = exprStr(x.Cond), exprStr(x.Body.List[0])
+						if strings.Contains(rotExprStr(x.Cond), "<") {
+							clampCond, clampSet = rotExprStr(x.Cond), rotExprStr(x.Body.List[0])
 						} else {
-							diskStmt = "if " + exprStr(x.Cond) + " { " + exprStr(x.Body.List[0]) + " }"
+							diskStmt = "if " + rotExprStr(x.Cond) + " { " + rotExprStr(x.Body.List[0]) + " }"
 						}
 					}
 				}
@@ -513,7 +513,7 @@ func init() {
 			ast.Inspect(fd.Body, func(n ast.Node) bool {
 				if c, ok := n.(*ast.CallExpr); ok && rotCallName(c) == "fmt.Sprintf" && len(c.Args) == 3 {
 					if fs, ok := strLit(c.Args[0]); ok && strings.Contains(fs, "type") {
-						res = fs + "|" + exprStr(c.Args[1]) + "," + exprStr(c.Args[2])
+						res = fs + "|" + rotExprStr(c.Args[1]) + "," + rotExprStr(c.Args[2])
 					}
 				}
 				return true
